@@ -46,6 +46,10 @@ class CallMixin:
                 return outs_c
             if fn in self.SPEC_FUNCS and st.pure:
                 return [Out("val", st, self.spec_call(fn, node, st))]
+            if fn == "next" and len(node.args) == 2 and isinstance(node.args[0], ast.GeneratorExp):
+                r = self.first_match_in_range(node, st)
+                if r is not None:
+                    return r
         if any(isinstance(a, ast.Starred) for a in node.args) or any(k.arg is None for k in node.keywords):
             raise Unsupported("*args/**kwargs call", node)
         # per-function call-site override by source text
@@ -94,6 +98,59 @@ class CallMixin:
         return outs
 
     # ------------------------------------------------------------ dispatch on the callee value
+    def first_match_in_range(self, node: ast.Call, st: State):
+        """next((i for i in range(a, b) if cond(i)), default): the least i in [a, b) with cond(i), else the default.
+        Returns None if the call is not of that exact shape."""
+        g = node.args[0]
+        if len(g.generators) != 1 or len(g.generators[0].ifs) != 1 or g.generators[0].is_async:
+            return None
+        gen = g.generators[0]
+        it = gen.iter
+        if not (isinstance(gen.target, ast.Name) and isinstance(g.elt, ast.Name) and g.elt.id == gen.target.id
+                and isinstance(it, ast.Call) and isinstance(it.func, ast.Name) and it.func.id == "range" and len(it.args) == 2 and not it.keywords):
+            return None
+        outs: List[Out] = []
+        res, raises = self.ev_list([it.args[0], it.args[1], node.args[1]], st)
+        outs.extend(raises)
+        for s, (lo_v, hi_v, dflt) in res:
+            lo, hi = self.as_int(lo_v), self.as_int(hi_v)
+            name = gen.target.id
+
+            def cond_at(state, iz):
+                saved = state.locals.get(name)
+                state.locals[name] = vint(iz)
+                was = state.pure
+                state.pure = True
+                try:
+                    c = self.truthy(state, self.ev1(gen.ifs[0], state))
+                finally:
+                    state.pure = was
+                    if saved is None:
+                        state.locals.pop(name, None)
+                    else:
+                        state.locals[name] = saved
+                return c
+
+            k = fresh("k", IntS)
+            npc = len(s.pc)
+            ck = cond_at(s, k)
+            side = s.pc[npc:]
+            del s.pc[npc:]
+            if side:
+                s.assume(z3.ForAll([k], z3.Implies(z3.And(lo <= k, k < hi), z3.And(side))))
+            none_found = z3.ForAll([k], z3.Implies(z3.And(lo <= k, k < hi), z3.Not(ck)))
+            for s2, found in self.branch(s, z3.Not(none_found)):
+                if not found:
+                    s2.assume(none_found)
+                    outs.append(Out("val", s2, dflt))
+                    continue
+                r = fresh("first", IntS)
+                s2.assume(z3.And(lo <= r, r < hi, cond_at(s2, r)))
+                k2 = fresh("k", IntS)
+                s2.assume(z3.ForAll([k2], z3.Implies(z3.And(lo <= k2, k2 < r), z3.Not(cond_at(s2, k2)))))
+                outs.append(Out("val", s2, vint(r)))
+        return outs
+
     def call_value(self, st: State, f: Val, args: List[Val], kwargs: Dict[str, Val], node, text: str) -> List[Out]:
         if f.py is None:
             raise NeedsContract(f"call of a dynamic callable `{text}` (add a calls[...] entry)", node)
